@@ -185,8 +185,16 @@ def gen_instance(rng, sc):
     nprobe = len(W.probes_for(w))
     threads = []
     for t in range(nthreads):
-        threads.append({'calls': [rng.randrange(nprobe) for _ in range(
-            1 if t == 0 else rng.choice((1, 1, 2)))]})
+        ncalls = rng.choice((1, 1, 2)) if t else rng.choice((1, 1, 1, 2))
+        calls = []
+        for _ in range(ncalls):
+            c = {'p': rng.randrange(nprobe), 'kind': 'enforce',
+                 'do_raise': rng.random() < 0.3}
+            if t == 0 and rng.random() < 0.2:
+                # the reload may also be driven by a direct load_rules()
+                c['kind'] = 'load'
+            calls.append(c)
+        threads.append({'calls': calls})
     return {'scenario': sc, 'world': w, 'edits': edits, 'threads': threads,
             'opcodes': False}
 
@@ -221,12 +229,19 @@ def bias_calls(inst, pre, rng):
     if not pre['informative']:
         return
     for t in inst['threads'][1:]:
-        t['calls'] = [rng.choice(pre['informative']) if rng.random() < 0.85
-                      else c for c in t['calls']]
+        for c in t['calls']:
+            if rng.random() < 0.85:
+                c['p'] = rng.choice(pre['informative'])
     if rng.random() < 0.5:
-        inst['threads'][0]['calls'] = [
-            rng.choice(pre['informative'])
-            for _ in inst['threads'][0]['calls']]
+        for c in inst['threads'][0]['calls']:
+            c['p'] = rng.choice(pre['informative'])
+    # a call made with do_raise=True only leaves by exception when the
+    # decision is a denial: prefer such probes for the first call of a
+    # thread that makes two (state left behind by the exception path)
+    denied = [i for i in pre['informative'] if pre['tables'][0][i] is False]
+    for t in inst['threads']:
+        if len(t['calls']) > 1 and t['calls'][0].get('do_raise') and denied:
+            t['calls'][0]['p'] = rng.choice(denied)
 
 
 def run_plan(inst, pre, plan, recorder=None, digest=None):
@@ -250,21 +265,46 @@ def run_plan(inst, pre, plan, recorder=None, digest=None):
             applied[0] += 1
             return True
 
+        from oslo_policy import policy as _pol
+
+        def one_call(c):
+            if c.get('kind') == 'load':
+                try:
+                    E.load_rules()
+                    return 'loaded'
+                except Exception as ex:      # noqa
+                    return 'EXC:' + type(ex).__name__
+            name, roles, system = ds.probes[c['p']]
+            creds = {'roles': list(roles)}
+            if system:
+                creds['system'] = 'all'
+            try:
+                return bool(E.enforce(name, {}, creds,
+                                      do_raise=bool(c.get('do_raise'))))
+            except (_pol.PolicyNotAuthorized, _pol.InvalidScope):
+                return False        # a denial delivered as an exception
+            except Exception as ex:      # noqa
+                return 'EXC:' + type(ex).__name__
+
         def mk(t):
             def fn():
-                for pi in inst['threads'][t]['calls']:
+                for c in inst['threads'][t]['calls']:
                     start = applied[0]
                     lo = last_completed_start[0]
-                    r = ds.decide(E, ds.probes[pi])
-                    calls.append((t, pi, lo, applied[0], r))
+                    r = one_call(c)
+                    calls.append((t, c['p'], lo, applied[0], r,
+                                  c.get('kind', 'enforce')))
                     if start > last_completed_start[0]:
                         last_completed_start[0] = start
+                    sref[0].yield_point(t)
                 return True
             return fn
 
+        sref = [None]
         s = tsched.Sched([mk(t) for t in range(len(inst['threads']))],
                          plan, op_fn=op_fn, opcodes=inst.get('opcodes'),
                          on_switch=None)
+        sref[0] = s
         if recorder is not None:
             recorder(s, E)
         s.run()
@@ -288,9 +328,14 @@ def run_plan(inst, pre, plan, recorder=None, digest=None):
             if viol is None and e is not None:
                 viol = {'sig': 'worker-raised:' + type(e).__name__,
                         'prop': 'C20', 'thread': t}
-        for (t, pi, lo, hi, r) in calls:
+        for (t, pi, lo, hi, r, kind) in calls:
             if viol is not None:
                 break
+            if kind == 'load':
+                if r != 'loaded':
+                    viol = {'sig': 'exception-during-reload:' + r[4:],
+                            'prop': 'C20', 'thread': t, 'call': 'load_rules'}
+                continue
             allowed = {tables[k][pi] for k in range(lo, hi + 1)}
             if lo == 0:
                 allowed.add(pre['te0'][pi])
@@ -403,7 +448,15 @@ def gen_plan(rng, inst, dry, kind):
     ne = len(inst['edits'])
     if inst['edits'][0]['op'] == 'unlink':
         kind = 'pre'
-    if kind == 'pre':
+    two = [t for t in range(nt) if len(inst['threads'][t]['calls']) > 1]
+    if kind == 'pre' and two and rng.random() < 0.5 and \
+            inst['edits'][0]['op'] != 'unlink':
+        # a thread completes its first call (perhaps leaving by exception)
+        # before the edit lands; its next call then drives the reload
+        plan.append(['C', rng.choice(two), 1])
+        plan.append(['OP'])
+        ne -= 1
+    elif kind == 'pre':
         plan.append(['OP'])
         ne -= 1
     else:
@@ -499,6 +552,10 @@ def run_one(base, i, prop=None, mode='random'):
             1 if plan and plan[0] == ['OP'] else 0)))
         cnt.hit('fault:preemption_inside_library', nsw)
         cnt.hit('decisions_judged', len(out['calls']))
+        if any(c[5] == 'load' for c in out['calls']):
+            cnt.hit('probe:reload_driven_by_direct_load_rules')
+        if any(sg[0] == 'C' for sg in plan):
+            cnt.hit('probe:call_completed_before_edit')
         if any(c[0] != 0 and c[1] in pre['informative']
                for c in out['calls']):
             cnt.hit('probe:decision_on_informative_probe')
@@ -622,8 +679,10 @@ def sample_repr(case):
                        {n: rast.show(a) for n, a in v.items()})
                    for k, v in op.items() if k != 'style'}
                   for op in inst['edits']],
-        'threads': [[list(probes[c][:2]) for c in t['calls']]
-                    for t in inst['threads']],
+        'threads': [[{'call': c.get('kind', 'enforce'),
+                      'probe': list(probes[c['p']][:2]),
+                      'do_raise': bool(c.get('do_raise'))}
+                     for c in t['calls']] for t in inst['threads']],
         'plan': case['plan'],
         'granularity': 'opcode' if inst.get('opcodes') else 'source line',
     }
@@ -673,7 +732,9 @@ COMPONENTS = {
 }
 EXPECTED_PROBES = {'C20': ['decision_on_informative_probe',
                            'preemption_inside_library',
-                           'edit_during_threads']}
+                           'edit_during_threads',
+                           'reload_driven_by_direct_load_rules',
+                           'call_completed_before_edit']}
 
 
 def summarise_states(states):
